@@ -45,6 +45,28 @@ def outTokens : Out Float → List String
   | .ints v => v.map toString
   | .cmplxs v => v.flatMap (fun z => [fmtF z.re, fmtF z.im])
 
+/-- the 64-bit pattern of an `int` as the harness stores it: `uint64_t(int64_t(v))` -/
+def intWord (v : Int) : UInt64 := (v % 18446744073709551616).toNat.toUInt64
+
+def outWords : Out Float → List UInt64
+  | .unit => []
+  | .real v => [v.toBits]
+  | .reals v => v.map Float.toBits
+  | .int v => [intWord v]
+  | .ints v => v.map intWord
+  | .cmplxs v => v.flatMap (fun z => [z.re.toBits, z.im.toBits])
+
+/-- FNV-1a over 64-bit words (the digest of a long stream: `streamD`) -/
+def fnvStep (h : UInt64) (u : UInt64) : UInt64 := (h ^^^ u) * 0x100000001b3
+
+/-- count, digest, first and last word of the values a program returns -/
+def digestOuts (outs : List (Out Float)) : String :=
+  let (cnt, h, first, last) := outs.foldl (fun (acc : Nat × UInt64 × UInt64 × UInt64) o =>
+    (outWords o).foldl (fun (a : Nat × UInt64 × UInt64 × UInt64) u =>
+      let (c, h, f, _) := a
+      (c + 1, fnvStep h u, if c == 0 then u else f, u)) acc) (0, 0xcbf29ce484222325, 0, 0)
+  s!"{cnt} {h.toNat} {first.toNat} {last.toNat}"
+
 def h19 : List String → Option String
   | "awgnR" :: snr :: rest => do
     let snr ← parseF snr
@@ -85,6 +107,11 @@ def h19 : List String → Option String
     let (outs, _) := run stdMT (imf == "1") prog (rng stdMT seed (MT.seed 0))
     let toks := outs.flatMap outTokens
     some (String.intercalate " " (toString toks.length :: toks))
+  | "streamD" :: seed :: imf :: len :: rest => do
+    let seed ← parseI seed
+    let prog ← parseOps (← len.toNat?) rest
+    let (outs, _) := run stdMT (imf == "1") prog (rng stdMT seed (MT.seed 0))
+    some (digestOuts outs)
   | _ => none
 
 end Dsp.Driver
